@@ -1,100 +1,73 @@
 (* C10: a scanner's results do not depend on its scan history.
-   Statements only; proofs are in Proofs/ScannerProofs.v, the model ([step], [fresh], [hist_ok]) in
+   Statements only; proofs are in Proofs/ScannerProofs.v, the model ([step], [fresh]) in
    Model/ScannerHist.v.  [oracle] is what one scan reports as a function of everything the engine
    reads (flags, timeout, input, externals, entry point seen, lingering match data of another scan);
-   [modnames] are the identifiers of yr_modules_table.  The model is tied to /repo by checks/c10.py
-   on every run (extracted model vs harness/h_hist on random histories, state fields included). *)
+   [modnames] are the identifiers of yr_modules_table; [cfg_current] is the code as it is in /repo now,
+   [cfg_pinned] the code of the pinned commit.  The model is tied to /repo by checks/c10.py on every
+   run (extracted model vs harness/h_hist on random histories, state fields included). *)
 From Coq Require Import List NArith ZArith.
 From YV Require Import gen.GenConsts Model.Externals Model.ScannerHist Proofs.ScannerProofs.
 Import ListNotations.
 
-(* The property in full ([history_independent_statement], [destroy_no_leak_statement] in
-   Proofs/ScannerProofs.v):
-     forall o h i sc nr, alive after h ->
-       trace (step (run h (fresh o)) (Scan i sc nr)) = trace (step (run (settings of h) (fresh o)) (Scan i sc nr))
-     forall o h, alive after h -> nothing stays allocated after Destroy.
-   On the current tree the faithful model REFUTES the first: *)
-
-(* 1. entry_point is set only when undefined (scanner.c 536) and never reset: [scan PE; scan text] *)
-Theorem history_independent_refuted : ~ history_independent_statement [] toy_oracle.
-Proof. exact history_independent_refuted_proof. Qed.
-Print Assumptions history_independent_refuted.
-
-(* 2. (was: a scan left at ERROR_BLOCK_NOT_READY and never resumed leaked its matches into the next scan
-      and lost its notebook -- repaired in /repo by 8a2210d; the model follows the repaired code and
-      abandoned suspensions are now inside the theorems below) *)
-
-(* 3. an external variable with the name of a module is removed from objects_table by
-      yr_modules_unload_all at the end of the first scan *)
-Theorem history_independent_refuted_module_name : ~ history_independent_statement [7%N] toy_oracle_x.
-Proof. exact history_independent_refuted_module_name_proof. Qed.
-Print Assumptions history_independent_refuted_module_name.
-
-(* What holds, for every rule set (oracle), every module table, ALL histories of scans (completed,
-   aborted or failed from the callback, timed out, suspended and resumed or abandoned), setting
-   changes and defines that do not crash ([hist_ok]: no NULL string), whose externals are not named
-   like modules: the ONLY channel from the history into a scan is the entry_point field. *)
-Theorem history_independent_partial :
-  forall modnames oracle o h i sc nr,
-  no_module_names modnames o = true ->
-  hist_ok modnames oracle (fresh o) (h ++ [Scan i sc nr]) = true ->
-  st_alive (run_state modnames oracle (fresh o) h) = true ->
-  snd (step modnames oracle (run_state modnames oracle (fresh o) h) (Scan i sc nr)) =
-  snd (step modnames oracle
-         (with_ep (run_state modnames oracle (fresh o) (filter is_setting h))
-                  (st_ep (run_state modnames oracle (fresh o) h)))
-         (Scan i sc nr)).
-Proof. exact history_independent_partial_proof. Qed.
-Print Assumptions history_independent_partial.
-
-(* ... so the property holds as stated as long as no entry point was recorded *)
-Theorem history_independent_no_entry_point :
-  forall modnames oracle o h i sc nr,
-  no_module_names modnames o = true ->
-  hist_ok modnames oracle (fresh o) (h ++ [Scan i sc nr]) = true ->
-  st_alive (run_state modnames oracle (fresh o) h) = true ->
-  st_ep (run_state modnames oracle (fresh o) h) = None ->
-  snd (step modnames oracle (run_state modnames oracle (fresh o) h) (Scan i sc nr)) =
-  snd (step modnames oracle (run_state modnames oracle (fresh o) (filter is_setting h)) (Scan i sc nr)).
-Proof. exact history_independent_no_entry_point_proof. Qed.
-Print Assumptions history_independent_no_entry_point.
+(* for every rule set (oracle), every module table, every externals snapshot, ALL histories h of scans
+   (completed, aborted or failed from the callback at any message, timed out, stopped by too many
+   matches, suspended by a not-ready block and resumed or abandoned), flag / timeout changes and
+   external definitions (valid or rejected), and every scan (input, callback script, not-ready answer):
+   the scan reports after h what it reports on a freshly created scanner given the same settings *)
+Theorem history_independent :
+  forall modnames oracle (o : objs) (h : list op) (i : input) (sc : script) (nr : option nat),
+    st_alive (run_state cfg_current modnames oracle (fresh o) h) = true ->
+    snd (step cfg_current modnames oracle (run_state cfg_current modnames oracle (fresh o) h) (Scan i sc nr)) =
+    snd (step cfg_current modnames oracle (run_state cfg_current modnames oracle (fresh o) (filter is_setting h)) (Scan i sc nr)).
+Proof. exact history_independent_proof. Qed.
+Print Assumptions history_independent.
 
 (* the invariant of the induction: between scans every per-scan field is at its initial value *)
 Theorem between_scans_clean :
   forall modnames oracle o h,
-  no_module_names modnames o = true -> hist_ok modnames oracle (fresh o) h = true ->
-  st_alive (run_state modnames oracle (fresh o) h) = true ->
-  st_susp (run_state modnames oracle (fresh o) h) = None ->
-  let s := run_state modnames oracle (fresh o) h in
+  st_alive (run_state cfg_current modnames oracle (fresh o) h) = true ->
+  st_susp (run_state cfg_current modnames oracle (fresh o) h) = None ->
+  let s := run_state cfg_current modnames oracle (fresh o) h in
   st_matches s = [] /\ st_unconfirmed s = [] /\ st_required s = [] /\ st_notebook s = None /\
   st_rule_flags s = [] /\ st_ns_unsat s = [] /\ st_disabled s = [] /\ st_mods s = [] /\ st_leaked s = 0%nat.
 Proof. exact between_scans_clean_proof. Qed.
 Print Assumptions between_scans_clean.
 
-Theorem destroy_any_prefix_no_leak_partial :
+(* flags, timeout and externals are exactly what the setting operations made them, whatever was scanned
+   (also externals that carry the name of a module) *)
+Theorem settings_survive :
   forall modnames oracle o h,
-  no_module_names modnames o = true ->
-  hist_ok modnames oracle (fresh o) (h ++ [Destroy]) = true ->
-  st_alive (run_state modnames oracle (fresh o) h) = true ->
-  heap_live (fst (step modnames oracle (run_state modnames oracle (fresh o) h) Destroy)) = 0%nat.
-Proof. exact destroy_no_leak_partial_proof. Qed.
-Print Assumptions destroy_any_prefix_no_leak_partial.
+  st_alive (run_state cfg_current modnames oracle (fresh o) h) = true ->
+  let s := run_state cfg_current modnames oracle (fresh o) h in
+  let s' := run_state cfg_current modnames oracle (fresh o) (filter is_setting h) in
+  st_flags s = st_flags s' /\ st_timeout s = st_timeout s' /\ st_objs s = st_objs s'.
+Proof. exact settings_survive_proof. Qed.
+Print Assumptions settings_survive.
 
-(* destroy after any prefix, also while a scan waits for a block, leaves nothing allocated: the
-   hypotheses are those of the theorem above (the scanner model has no other owner of memory; the
-   engine's own allocations during a scan are outside the model and are checked with ASan) *)
-(* non-vacuity: a history with PE, suspended-and-resumed, aborted, failed and timed-out scans
-   satisfies the hypotheses (and records an entry point) *)
+(* the scanner destroyed after any prefix -- also while a scan waits for a block -- owns and has lost nothing
+   (the scanner model; what the engine allocates during a scan is checked with ASan by checks/c10.py) *)
+Theorem destroy_any_prefix_no_leak :
+  forall modnames oracle (o : objs) (h : list op),
+    st_alive (run_state cfg_current modnames oracle (fresh o) h) = true ->
+    heap_live (fst (step cfg_current modnames oracle (run_state cfg_current modnames oracle (fresh o) h) Destroy)) = 0%nat.
+Proof. exact destroy_no_leak_proof. Qed.
+Print Assumptions destroy_any_prefix_no_leak.
+
+(* the pinned commit: entry_point was set only when undefined and never reset (repaired by c92ef8f) ... *)
+Theorem history_independent_pinned_refuted : ~ history_independent_statement cfg_pinned [] toy_oracle.
+Proof. exact history_independent_pinned_refuted_proof. Qed.
+Print Assumptions history_independent_pinned_refuted.
+
+(* ... and an external variable with the name of a module was removed by yr_modules_unload_all (repaired by 9d2571f) *)
+Theorem history_independent_pinned_refuted_module_name : ~ history_independent_statement cfg_pinned [7%N] toy_oracle_x.
+Proof. exact history_independent_pinned_refuted_module_name_proof. Qed.
+Print Assumptions history_independent_pinned_refuted_module_name.
+
+(* non-vacuity: a history with a PE, suspended-and-resumed, aborted, failed, timed-out and abandoned scans,
+   a rejected define and an external named like a module is alive, ends suspended, and is destroyed clean *)
 Example c10_hypotheses_satisfiable :
-  no_module_names [7%N] [(5%N, PI 3)] = true /\
-  hist_ok [7%N] toy_oracle (fresh [(5%N, PI 3)]) (example_history ++ [Scan inp_text [] None]) = true /\
-  hist_ok [7%N] toy_oracle (fresh [(5%N, PI 3)]) (example_history ++ [Destroy]) = true /\
-  st_alive (run_state [7%N] toy_oracle (fresh [(5%N, PI 3)]) example_history) = true.
-Proof. destruct hypotheses_satisfiable as (A & B & C & D & _). auto. Qed.
-
-(* ... and one that abandons a suspended scan and is destroyed while another one waits *)
-Example c10_abandon_satisfiable :
-  hist_ok [] toy_oracle (fresh []) ([Scan inp_blocks [] (Some 1%nat); Scan inp_text [] None; Scan inp_blocks [] (Some 1%nat)] ++ [Destroy]) = true /\
-  snd (run [] toy_oracle (fresh []) [Scan inp_blocks [] (Some 1%nat); Scan inp_text [] None; Scan inp_blocks [] (Some 1%nat); Destroy]) =
-    [TScan [] ERROR_BLOCK_NOT_READY; TScan [(KRule, 0%N); (KRule, 10%N); (KFinished, 0%N)] 0; TScan [] ERROR_BLOCK_NOT_READY; TDestroyed 0].
-Proof. vm_compute. split; reflexivity. Qed.
+  st_alive (run_state cfg_current [7%N] toy_oracle (fresh [(5%N, PI 3); (7%N, PI 1)]) example_history) = true /\
+  st_susp (run_state cfg_current [7%N] toy_oracle (fresh [(5%N, PI 3); (7%N, PI 1)]) example_history) <> None /\
+  snd (step cfg_current [7%N] toy_oracle (run_state cfg_current [7%N] toy_oracle (fresh [(5%N, PI 3); (7%N, PI 1)]) example_history) Destroy)
+    = TDestroyed 0.
+Proof. destruct hypotheses_satisfiable as (A & _ & C & _ & E). auto. Qed.
